@@ -32,6 +32,9 @@ Qed.
 Lemma length_upd : forall A (l : list A) n x, length (upd n x l) = length l.
 Proof. induction l; intros [|n] x; simpl; auto. Qed.
 
+Lemma upd_upd : forall A (l : list A) n x y, upd n x (upd n y l) = upd n x l.
+Proof. induction l as [|z t IH]; intros [|n] x y; simpl; auto. f_equal. apply IH. Qed.
+
 Lemma nth_error_Some_lt : forall A (l : list A) n x, nth_error l n = Some x -> n < length l.
 Proof. intros. apply nth_error_Some. congruence. Qed.
 
@@ -746,3 +749,194 @@ Proof.
 Qed.
 
 End Prims.
+
+(* ------------------------------------------------------------------ permutation solver *)
+
+Definition tval_dec : forall x y : tval, {x = y} + {x <> y}.
+Proof. repeat decide equality. Defined.
+
+Lemma count_firstn_skipn : forall n (l : list tval) x,
+  count_occ tval_dec l x = count_occ tval_dec (firstn n l) x + count_occ tval_dec (skipn n l) x.
+Proof. intros. rewrite <- count_occ_app. rewrite firstn_skipn. reflexivity. Qed.
+
+Lemma skipn_1_tl : forall A (l : list A), tl l = skipn 1 l.
+Proof. destruct l; reflexivity. Qed.
+
+Lemma removelast_last_t : forall l, removelast_t l ++ opt_list (last_t l) = l.
+Proof.
+  induction l as [|x r IH]; [reflexivity|]. destruct r as [|y r']; [reflexivity|].
+  change (x :: (removelast_t (y :: r') ++ opt_list (last_t (y :: r'))) = x :: y :: r').
+  rewrite IH. reflexivity.
+Qed.
+
+Lemma count_removelast_last : forall (l : list tval) x,
+  count_occ tval_dec l x = count_occ tval_dec (removelast_t l) x + count_occ tval_dec (opt_list (last_t l)) x.
+Proof. intros. rewrite <- count_occ_app. rewrite removelast_last_t. reflexivity. Qed.
+
+Ltac perm_facts x :=
+  repeat match goal with
+  | |- context [firstn ?n ?l] =>
+    lazymatch goal with
+    | _ : count_occ tval_dec l x = count_occ tval_dec (firstn n l) x + _ |- _ => fail
+    | _ => pose proof (count_firstn_skipn n l x)
+    end
+  end;
+  repeat match goal with
+  | |- context [removelast_t ?l] =>
+    lazymatch goal with
+    | _ : count_occ tval_dec l x = count_occ tval_dec (removelast_t l) x + _ |- _ => fail
+    | _ => pose proof (count_removelast_last l x)
+    end
+  end.
+
+Ltac perm_tac :=
+  rewrite ?skipn_1_tl;
+  apply (Permutation_count_occ tval_dec);
+  let x := fresh "x" in intro x;
+  repeat (progress (rewrite ?count_occ_app; cbn [count_occ opt_list app]));
+  perm_facts x;
+  repeat match goal with |- context [tval_dec ?a ?b] => destruct (tval_dec a b) end;
+  lia.
+
+Example perm_tac_test : forall (a b : tval) (l k : list tval),
+  Permutation (a :: firstn 1 l ++ k ++ b :: skipn 1 l) (l ++ [b] ++ a :: k).
+Proof. intros. perm_tac. Qed.
+
+(* ------------------------------------------------------------------ state level *)
+
+Definition sinv (X : list tval) (st : hstate) : Prop := inv_h (root_vals (roots st) ++ X) (heap st).
+
+Definition striple {A} (X : list tval) (m : M A) (Q : A -> list tval) : Prop :=
+  forall st, sinv X st ->
+    match m st with Ok (a, st') => sinv (Q a) st' | Overflow => True | Err _ => False end.
+
+Lemma sinv_perm : forall X X' st, Permutation X X' -> sinv X st -> sinv X' st.
+Proof. unfold sinv. intros. eapply inv_h_perm; [|eassumption]. apply Permutation_app_head. assumption. Qed.
+
+Lemma striple_pre : forall A X X' (m : M A) Q, Permutation X X' -> striple X' m Q -> striple X m Q.
+Proof. unfold striple. intros A X X' m Q P H st I. apply H. eapply sinv_perm; eauto. Qed.
+
+Lemma striple_post : forall A X (m : M A) Q Q', (forall a, Permutation (Q a) (Q' a)) -> striple X m Q -> striple X m Q'.
+Proof.
+  unfold striple. intros A X m Q Q' P H st I. specialize (H st I).
+  destruct (m st) as [[a st']| |]; auto. eapply sinv_perm; eauto.
+Qed.
+
+Lemma striple_ret : forall A X (a : A) Q, Permutation X (Q a) -> striple X (ret a) Q.
+Proof. unfold striple, ret. intros. eapply sinv_perm; eauto. Qed.
+
+Lemma striple_bind : forall A B X (m : M A) (f : A -> M B) Q R,
+  striple X m Q -> (forall a, striple (Q a) (f a) R) -> striple X (bind m f) R.
+Proof.
+  unfold striple, bind. intros A B X m f Q R Hm Hf st I. specialize (Hm st I).
+  destruct (m st) as [[a st']| |]; auto. apply Hf. exact Hm.
+Qed.
+
+Lemma striple_guard : forall X c (m : M out) Q, Permutation X (Q OSkip) -> striple X m Q -> striple X (guard c m) Q.
+Proof.
+  unfold striple, guard. intros X c m Q P H st I. destruct (c st); [apply H; exact I|].
+  eapply sinv_perm; eauto.
+Qed.
+
+Lemma striple_fun : forall A X (m : hstate -> M A) Q, (forall s, striple X (m s) Q) -> striple X (fun st => m st st) Q.
+Proof. unfold striple. intros. apply H. assumption. Qed.
+
+Lemma striple_lift : forall A (m : H A) Lin (Lout : A -> list tval) X,
+  (forall E h, inv_h (Lin ++ E) h -> hspec m h (fun a h' => inv_h (Lout a ++ E) h')) ->
+  striple (Lin ++ X) (lift m) (fun a => Lout a ++ X).
+Proof.
+  unfold striple, lift, sinv. intros A m Lin Lout X Hm st I.
+  assert (inv_h (Lin ++ (root_vals (roots st) ++ X)) (heap st)) as I'.
+  { eapply inv_h_perm; [|exact I]. perm_tac. }
+  specialize (Hm _ _ I'). unfold hspec in Hm.
+  destruct (m (heap st)) as [[a h']| |]; auto. simpl.
+  eapply inv_h_perm; [|exact Hm]. perm_tac.
+Qed.
+
+Lemma root_vals_upd_perm : forall r s o o', nth_error r s = Some o ->
+  Permutation (root_vals (upd s o' r) ++ opt_list o) (root_vals r ++ opt_list o').
+Proof.
+  intros. unfold root_vals.
+  pose proof (@flat_map_upd_perm _ _ (fun o => match o with Some tv => [tv] | None => [] end) r s o o' H) as P.
+  destruct o, o'; exact P.
+Qed.
+
+Lemma striple_take_root : forall X s, striple X (take_root s) (fun o => opt_list o ++ X).
+Proof.
+  unfold striple, take_root, sinv. intros X s st I.
+  destruct (nth_error (roots st) s) as [[tv|]|] eqn:Hs; simpl; try exact I.
+  pose proof (@root_vals_upd_perm (roots st) s (Some tv) None Hs) as P. simpl in P. rewrite app_nil_r in P.
+  eapply inv_h_perm; [|exact I]. rewrite <- P. perm_tac.
+Qed.
+
+Lemma striple_take_roots : forall ss X, striple X (take_roots ss) (fun l => l ++ X).
+Proof.
+  induction ss as [|s r IH]; intros X; simpl.
+  - apply striple_ret. reflexivity.
+  - eapply striple_bind; [apply striple_take_root|]. intros o. cbv beta.
+    eapply striple_bind; [apply IH|]. intros l. cbv beta.
+    apply striple_ret. destruct o; simpl; perm_tac.
+Qed.
+
+Lemma striple_push_root : forall X tv, striple (tv :: X) (push_root tv) (fun _ => X).
+Proof.
+  unfold striple, push_root, sinv. intros X tv st I. simpl.
+  unfold root_vals in *. rewrite flat_map_app. simpl.
+  eapply inv_h_perm; [|exact I]. perm_tac.
+Qed.
+
+Lemma striple_push_roots : forall l X, striple (l ++ X) (push_roots l) (fun _ => X).
+Proof.
+  induction l as [|tv r IH]; intros X; simpl.
+  - apply striple_ret. reflexivity.
+  - eapply striple_bind; [apply striple_push_root|]. intros u. cbv beta. apply IH.
+Qed.
+
+Lemma striple_with_root : forall A s (f : tval -> H (tval * A)) (dflt : A) Lin (Lout : A -> list tval) X,
+  (forall tv E h, inv_h (tv :: Lin ++ E) h -> hspec (f tv) h (fun r h' => inv_h (fst r :: Lout (snd r) ++ E) h')) ->
+  Permutation Lin (Lout dflt) ->
+  striple (Lin ++ X) (with_root s f dflt) (fun a => Lout a ++ X).
+Proof.
+  unfold striple, with_root, sinv. intros A s f dflt Lin Lout X Hf Hd st I.
+  destruct (nth_error (roots st) s) as [[tv|]|] eqn:Hs; simpl;
+    try (eapply inv_h_perm; [|exact I]; apply Permutation_app_head; apply Permutation_app_tail; exact Hd).
+  pose proof (@root_vals_upd_perm (roots st) s (Some tv) None Hs) as P. simpl in P. rewrite app_nil_r in P.
+  assert (inv_h (tv :: Lin ++ (root_vals (upd s None (roots st)) ++ X)) (heap st)) as I'.
+  { eapply inv_h_perm; [|exact I]. rewrite <- P. perm_tac. }
+  specialize (Hf _ _ _ I'). unfold hspec in Hf.
+  destruct (f tv (heap st)) as [[[tv' a] h']| |]; auto. simpl in *.
+  assert (nth_error (upd s None (roots st)) s = Some None) as Hs'.
+  { apply nth_error_upd_eq. eapply nth_error_Some_lt; eauto. }
+  pose proof (@root_vals_upd_perm (upd s None (roots st)) s None (Some tv') Hs') as P'. simpl in P'.
+  rewrite app_nil_r in P'.
+  assert (upd s (Some tv') (upd s None (roots st)) = upd s (Some tv') (roots st)) as Eu.
+  { apply upd_upd. }
+  rewrite Eu in P'.
+  eapply inv_h_perm; [|exact Hf]. rewrite P'. perm_tac.
+Qed.
+
+Section StateOps.
+Variable mx : N.
+
+Lemma striple_clone_root : forall X s, striple X (clone_root mx s) (fun l => l ++ X).
+Proof.
+  unfold striple, clone_root, sinv. intros X s st I.
+  destruct (nth_error (roots st) s) as [[tv|]|] eqn:Hs; simpl; try exact I.
+  assert (In tv ((root_vals (roots st) ++ X) ++ heap_refs (heap st))) as HI.
+  { apply in_or_app. left. apply in_or_app. left. unfold root_vals. apply in_flat_map.
+    exists (Some tv). split; [eapply nth_error_In; eauto|left; reflexivity]. }
+  pose proof (@clone1_spec mx _ _ tv I HI) as C. unfold hspec in C.
+  destruct (h_clone1 mx tv (heap st)) as [[u h']| |]; auto. simpl. destruct C as [C _].
+  eapply inv_h_perm; [|exact C]. perm_tac.
+Qed.
+
+Lemma striple_clone_roots : forall ss X, striple X (clone_roots mx ss) (fun l => l ++ X).
+Proof.
+  induction ss as [|s r IH]; intros X; simpl.
+  - apply striple_ret. reflexivity.
+  - eapply striple_bind; [apply striple_clone_root|]. intros l. cbv beta.
+    eapply striple_bind; [apply IH|]. intros l'. cbv beta.
+    apply striple_ret. perm_tac.
+Qed.
+
+End StateOps.
